@@ -151,7 +151,7 @@ theorem keyFmt_select {w : Str} {j : Nat} {sw : Schema} {specw : BlockSpec}
     exact h
   refine walkQualifiers_block (tagSpec := ⟨b!"format", none, none, false, true⟩) (ref := refOf [w])
     (show specKeyField.qualifier = _ by decide +kernel) rfl rfl
-    (buildScope_keep (combinePath_ident hw [b!"format"]) (walkScope_cons h1 (walkScope_cons h2 (walkScope_nil _ _ _))))
+    (buildScope_keep_run (combinePath_ident hw [b!"format"]) (walkScope_cons h1 (walkScope_cons h2 (walkScope_nil _ _ _))))
     (checkBang_none _ _ rfl) ?_
   exact walkQualifiers_nil _ _ _ _
 
